@@ -99,11 +99,13 @@ def make_mesh_body(kind, name, quat, mode):
         if ctx is not None:
             ctx.pw_mode = True
         try:
-            res = poly.is_inside(H.arr(pts[0])) if mode == "single" else poly.is_inside(H.arr(pts))
+            arg = H.arr(pts[0]) if mode == "single" else H.arr(pts)
+            res = poly.is_inside(arg)
         finally:
             if ctx is not None:
                 ctx.pw_mode = False
         H.claim("result_shape", len(res) == npts)
+        H.claim_all_eq("points_unchanged", list(arg) if mode == "single" else [list(row) for row in arg], pts[0] if mode == "single" else pts)
         for i, p in enumerate(pts):
             ins = _inside_oracle(H, pieces, p)
             onb = _on_surface(H, Pv, faces, p)
@@ -141,9 +143,14 @@ def sphere_body(H, V):
     p = [V["px"], V["py"], V["pz"]]
     s = Sphere(r, c)
     d2 = O.dot(O.sub(p, c), O.sub(p, c))
-    res = s.is_inside(H.arr([p]))
+    arg = H.arr([p])
+    res = s.is_inside(arg)
     H.claim("sphere.inside<=>oracle", H.or_(d2 == r * r, H.iff(res[0], d2 < r * r)))
-    res1 = s.is_inside(H.arr(p))
+    # the caller's array is an input: unchanged, and the same array (or a row of it) asked again gives the same answer
+    H.claim_all_eq("sphere.points_unchanged", [list(row) for row in arg], [p])
+    res2 = s.is_inside(arg)
+    H.claim("sphere.same_array_again", H.or_(d2 == r * r, H.iff(res2[0], d2 < r * r)))
+    res1 = s.is_inside(arg[0])
     H.claim("sphere.single_form", H.or_(d2 == r * r, H.iff(res1[0], d2 < r * r)))
 
 
@@ -157,8 +164,12 @@ def ellipsoid_body(H, V):
     d = O.sub(p, cen)
     q = d[0] * d[0] * b * b * c * c + d[1] * d[1] * a * a * c * c + d[2] * d[2] * a * a * b * b
     rhs = a * a * b * b * c * c
-    res = s.is_inside(H.arr([p]))
+    arg = H.arr([p])
+    res = s.is_inside(arg)
     H.claim("ellipsoid.inside<=>oracle", H.or_(q == rhs, H.iff(res[0], q < rhs)))
+    H.claim_all_eq("ellipsoid.points_unchanged", [list(row) for row in arg], [p])
+    res2 = s.is_inside(arg)
+    H.claim("ellipsoid.same_array_again", H.or_(q == rhs, H.iff(res2[0], q < rhs)))
 
 
 def make_sphero_body(dims, free_r):
@@ -175,7 +186,9 @@ def make_sphero_body(dims, free_r):
         verts = [[H.num(OFF[k] + F(v[k])) for k in range(3)] for v in base]
         s = ConvexSpheropolyhedron(H.arr(verts), r)
         p = [V["px"], V["py"], V["pz"]]
-        res = s.is_inside(H.arr([p]))
+        arg = H.arr([p])
+        res = s.is_inside(arg)
+        H.claim_all_eq("sphero.points_unchanged", [list(row) for row in arg], [p])
         # squared distance to the box, by cases per axis
         d2 = 0
         for k in range(3):
